@@ -32,10 +32,16 @@ var outcomes = []string{oSuccess, oTyped, oPlain, oPanic, oUnrouted, oCritical}
 type c09Case struct {
 	Outcomes []string `json:"item_outcomes"`
 	Option   int      `json:"option"`  // 0 unset, 1 Continue, 2 Stop, 3 Undo
-	Version  string   `json:"version"` // supported | unsupported | restricted-in | restricted-out
-	CountOff int      `json:"batch_count_offset"`
-	IDs      string   `json:"ids"` // none | all | some
-	PanicVal string   `json:"panic_value,omitempty"`
+	Version  string   `json:"version"` // supported | unsupported | restricted-in | restricted-out (label, derived from the next three)
+	// ReqVersion is the version in the request header ("1.3"); Supported the set given to SetSupportedProtocolVersions
+	// on the executor under test (empty: the default 1.0..1.4); Others the sets given to other executors created and
+	// configured in the same process just before (their configuration must not leak into this one).
+	ReqVersion string     `json:"request_version"`
+	Supported  []string   `json:"supported,omitempty"`
+	Others     [][]string `json:"other_executors,omitempty"`
+	CountOff   int        `json:"batch_count_offset"`
+	IDs        string     `json:"ids"` // none | all | some
+	PanicVal   string     `json:"panic_value,omitempty"`
 }
 
 type stringer struct{ s string }
@@ -83,13 +89,7 @@ func newExecutor(log *callLog, panicVal string) *kmipserver.BatchExecutor {
 }
 
 func buildRequest(c c09Case) *kmip.RequestMessage {
-	ver := kmip.V1_2
-	switch c.Version {
-	case "unsupported":
-		ver = kmip.ProtocolVersion{ProtocolVersionMajor: 2, ProtocolVersionMinor: 0}
-	case "restricted-out":
-		ver = kmip.V1_3
-	}
+	ver := parseVersion(c.ReqVersion)
 	req := &kmip.RequestMessage{Header: kmip.RequestHeader{ProtocolVersion: ver, BatchCount: int32(len(c.Outcomes) + c.CountOff)}}
 	switch c.Option {
 	case 1:
@@ -116,12 +116,60 @@ func buildRequest(c c09Case) *kmip.RequestMessage {
 	return req
 }
 
+func parseVersion(s string) kmip.ProtocolVersion {
+	var v kmip.ProtocolVersion
+	fmt.Sscanf(s, "%d.%d", &v.ProtocolVersionMajor, &v.ProtocolVersionMinor)
+	return v
+}
+
+func parseVersions(l []string) []kmip.ProtocolVersion {
+	var out []kmip.ProtocolVersion
+	for _, s := range l {
+		out = append(out, parseVersion(s))
+	}
+	return out
+}
+
+var c09Default = []string{"1.0", "1.1", "1.2", "1.3", "1.4"}
+
+// c09Supported is the model: the request version is supported iff it is in the configured set (default 1.0..1.4).
+func c09Supported(c c09Case) bool {
+	set := c.Supported
+	if len(set) == 0 {
+		set = c09Default
+	}
+	for _, v := range set {
+		if v == c.ReqVersion {
+			return true
+		}
+	}
+	return false
+}
+
+// c09Label derives the evidence label of the version mode.
+func c09Label(c *c09Case) {
+	switch {
+	case len(c.Supported) == 0 && c09Supported(*c):
+		c.Version = "supported"
+	case len(c.Supported) == 0:
+		c.Version = "unsupported"
+	case c09Supported(*c):
+		c.Version = "restricted-in"
+	default:
+		c.Version = "restricted-out"
+	}
+}
+
 // c09Run executes one batch against a fresh executor and compares with the model.
 func c09Run(c c09Case) (sig string, err error) {
 	log := &callLog{}
+	for _, o := range c.Others {
+		other := kmipserver.NewBatchExecutor()
+		other.SetSupportedProtocolVersions(parseVersions(o)...)
+	}
 	exec := newExecutor(log, c.PanicVal)
-	if strings.HasPrefix(c.Version, "restricted") {
-		exec.SetSupportedProtocolVersions(kmip.V1_4, kmip.V1_2)
+	if len(c.Supported) > 0 {
+		exec.SetSupportedProtocolVersions(parseVersions(c.Supported)...)
 	}
 	req := buildRequest(c)
 	var resp *kmip.ResponseMessage
@@ -132,7 +180,7 @@ func c09Run(c c09Case) (sig string, err error) {
 		return "nil-response", errors.New("HandleRequest returned nil")
 	}
 	n := len(c.Outcomes)
-	rejected := c.Option == 3 || c.Version == "unsupported" || c.Version == "restricted-out" || c.CountOff != 0
+	rejected := c.Option == 3 || !c09Supported(c) || c.CountOff != 0
 	if rejected {
 		if len(log.calls) != 0 {
 			return "rejected-request-executed-handlers", fmt.Errorf("request must be rejected as a whole but handlers ran for items %v", log.calls)
@@ -199,7 +247,7 @@ func c09Run(c c09Case) (sig string, err error) {
 
 func c09NonTrivial(c c09Case) bool {
 	n := len(c.Outcomes)
-	rejected := c.Option == 3 || c.Version == "unsupported" || c.Version == "restricted-out" || c.CountOff != 0
+	rejected := c.Option == 3 || !c09Supported(c) || c.CountOff != 0
 	if rejected {
 		return n >= 1
 	}
@@ -211,9 +259,12 @@ func c09NonTrivial(c c09Case) bool {
 	return false
 }
 
+// version sets given to SetSupportedProtocolVersions (in the caller's order)
+var c09Sets = [][]string{{"1.4", "1.2"}, {"1.2"}, {"1.0", "1.3"}, {"1.1", "1.2", "1.3"}, {"1.3", "1.4", "1.0"}, {"1.0", "1.1", "1.2", "1.3"}}
+
 func TestC09Exhaustive(t *testing.T) {
 	const name = "TestC09Exhaustive"
-	rec := evid.New("C09", name, "all batches of length 0..3 over the six item outcomes x option {unset, Continue, Stop, Undo} x version {supported, unsupported, inside/outside a restricted executor} x batch count offset {-1,0,+1} x ids {none, all, some}, "+
+	rec := evid.New("C09", name, "all batches of length 0..3 over the six item outcomes x option {unset, Continue, Stop, Undo} x version {each of 1.0..1.4 on a default executor, unsupported 0.9/1.5/2.0/3.1, inside/outside one of six restricted sets; in a third of the cases another executor was given a restricted set just before} x batch count offset {-1,0,+1} x ids {none, all, some}, "+
 		"each executed once against a fresh BatchExecutor and compared with the executable model of the KMIP batch semantics; non-trivial = >= 2 items with a failing item that is not last, or a rejected request with >= 1 item; distinct by case").Attach(t)
 	rec.Exhaustive(true)
 	if rp := evid.LoadReplay(name); rp != nil {
@@ -251,7 +302,28 @@ func TestC09Exhaustive(t *testing.T) {
 							continue
 						}
 						k++
-						c := c09Case{Outcomes: l, Option: opt, Version: ver, CountOff: off, IDs: ids, PanicVal: panicVals[k%len(panicVals)]}
+						c := c09Case{Outcomes: l, Option: opt, CountOff: off, IDs: ids, PanicVal: panicVals[k%len(panicVals)]}
+						switch ver {
+						case "supported":
+							c.ReqVersion = c09Default[k%5]
+						case "unsupported":
+							c.ReqVersion = []string{"2.0", "1.5", "0.9", "3.1"}[k%4]
+						case "restricted-in":
+							c.Supported = c09Sets[k%len(c09Sets)]
+							c.ReqVersion = c.Supported[k%len(c.Supported)]
+						case "restricted-out":
+							c.Supported = c09Sets[k%len(c09Sets)]
+							for j := 0; j < 5; j++ {
+								c.ReqVersion = c09Default[(k+j)%5]
+								if !c09Supported(c) {
+									break
+								}
+							}
+						}
+						if k%3 == 0 {
+							c.Others = [][]string{c09Sets[(k/3)%len(c09Sets)]}
+						}
+						c09Label(&c)
 						key, _ := json.Marshal(c)
 						rec.Case(c09NonTrivial(c), key)
 						if c09NonTrivial(c) && k%977 == 0 {
@@ -270,7 +342,7 @@ func TestC09Exhaustive(t *testing.T) {
 
 func TestC09Random(t *testing.T) {
 	const name = "TestC09Random"
-	rec := evid.New("C09", name, "rapid: batches of 4..12 items with drawn outcomes, option, version mode, batch count offset, id mode and panic value; same model; "+
+	rec := evid.New("C09", name, "rapid: batches of 4..12 items with drawn outcomes, option, request version, supported set of this executor and of up to two other executors configured before it, batch count offset, id mode and panic value; same model; "+
 		"non-trivial as in TestC09Exhaustive; distinct by case").Attach(t)
 	if rp := evid.LoadReplay(name); rp != nil {
 		var c c09Case
@@ -284,12 +356,12 @@ func TestC09Random(t *testing.T) {
 	}
 	rapid.Check(t, func(rt *rapid.T) {
 		c := c09Case{
-			Outcomes: rapid.SliceOfN(rapid.SampledFrom(outcomes), 4, 12).Draw(rt, "outcomes"),
-			Option:   rapid.IntRange(0, 3).Draw(rt, "option"),
-			Version:  rapid.SampledFrom([]string{"supported", "supported", "supported", "unsupported", "restricted-in", "restricted-out"}).Draw(rt, "version"),
-			CountOff: rapid.SampledFrom([]int{0, 0, 0, 0, -1, 1, 5}).Draw(rt, "countoff"),
-			IDs:      rapid.SampledFrom([]string{"none", "all", "some"}).Draw(rt, "ids"),
-			PanicVal: rapid.SampledFrom([]string{"string", "error", "int", "stringer", "nil"}).Draw(rt, "panicval"),
+			Outcomes:   rapid.SliceOfN(rapid.SampledFrom(outcomes), 4, 12).Draw(rt, "outcomes"),
+			Option:     rapid.IntRange(0, 3).Draw(rt, "option"),
+			ReqVersion: rapid.SampledFrom([]string{"1.0", "1.1", "1.2", "1.3", "1.4", "1.0", "1.1", "1.2", "1.3", "1.4", "1.5", "2.0", "0.9"}).Draw(rt, "reqversion"),
+			CountOff:   rapid.SampledFrom([]int{0, 0, 0, 0, -1, 1, 5}).Draw(rt, "countoff"),
+			IDs:        rapid.SampledFrom([]string{"none", "all", "some"}).Draw(rt, "ids"),
+			PanicVal:   rapid.SampledFrom([]string{"string", "error", "int", "stringer", "nil"}).Draw(rt, "panicval"),
 		}
 		if rapid.IntRange(0, 2).Draw(rt, "mostlysuccess") == 0 {
 			for i := range c.Outcomes {
@@ -298,8 +370,13 @@ func TestC09Random(t *testing.T) {
 				}
 			}
 		}
+		if rapid.IntRange(0, 2).Draw(rt, "restrict") == 0 {
+			c.Supported = rapid.SliceOfNDistinct(rapid.SampledFrom(c09Default), 1, 4, rapid.ID[string]).Draw(rt, "supported")
+		}
+		c.Others = rapid.SliceOfN(rapid.SliceOfNDistinct(rapid.SampledFrom(c09Default), 1, 5, rapid.ID[string]), 0, 2).Draw(rt, "others")
+		c09Label(&c)
 		key, _ := json.Marshal(c)
-		rec.Case(c09NonTrivial(c), key, fmt.Sprintf("option=%d", c.Option), "version="+c.Version)
+		rec.Case(c09NonTrivial(c), key, fmt.Sprintf("option=%d", c.Option), "version="+c.Version, fmt.Sprintf("other-executors=%v", len(c.Others) > 0))
 		if c09NonTrivial(c) && rec.WantSample() {
 			rec.Sample(c)
 		}
